@@ -11,6 +11,15 @@ from ..impl import Impl
 # metrics and matrix utilities are not "estimators or path/structure functions"
 EXCLUDE = ('get_modularity', 'get_degrees', 'get_weights', 'normalize', 'bipartite2undirected', 'visualize_bigraph')
 NO_FORCE = ()
+# option values of the entry points (cycled over the repetitions)
+VARIANTS = {'get_connected_components': [{}, {'connection': 'strong'}, {'connection': 'weak'}],
+            'is_connected': [{}, {'connection': 'strong'}],
+            'Katz': [{}, {'path_length': 2}, {'damping_factor': 0.2}],
+            'Diffusion': [{}, {'n_iter': 1}, {'damping_factor': 0.9}], 'Dirichlet': [{}, {'n_iter': 1}],
+            'DiffusionClassifier': [{}, {'centering': False}, {'n_iter': 2}],
+            'Propagation': [{}, {'weighted': False}, {'node_order': 'increasing'}],
+            'Paris': [{}, {'weights': 'uniform'}, {'reorder': False}],
+            'Spectral': [{}, {'decomposition': 'laplacian'}, {'normalized': False}]}
 GEN_FILES = ['Routing.v']
 
 
@@ -63,11 +72,13 @@ def run(ctx, scratch):
                     opts['force_bipartite'] = True
                 if d['seeded']:
                     opts.setdefault('params', {})['random_state'] = 3
+                if name in VARIANTS:
+                    opts.setdefault('params', {}).update(VARIANTS[name][rep % len(VARIANTS[name])])
                 s2, o2 = cases.block_case(spec, opts)
                 if name in ('DiffusionClassifier', 'PageRankClassifier', 'Propagation', 'NNClassifier'):
                     labs = set()
                     for sd in opts.get('seeds', {}).values():
-                        vals = sd['dict'].values() if isinstance(sd, dict) and 'dict' in sd else (sd['array'] if isinstance(sd, dict) else sd)
+                        vals = sd['dict'].values() if isinstance(sd, dict) and 'dict' in sd else ((sd.get('array') or sd.get('farray')) if isinstance(sd, dict) else sd)
                         labs |= {v for v in vals if v >= 0}
                     if len(labs) < 2:
                         continue
